@@ -232,6 +232,16 @@ def explore(ctx):
                  "reqs": [], "rules": [], "unregistered": [], "ireqs": []}
     run_hist(ctx, base, tidy_spec, [("iter", "h1"), ("iter", "h1"), ("iter", "h1")], {"scenario": "tidy-up"})
     ctx.count("history-tidy-up")
+    # a batch of two: the other host deletes its copy of the SECOND file while the first is being unlinked; the second file's count is read
+    # after that, so the second copy must stay (only the first copy's count can be stale: KF-C01-1)
+    b2_spec = {"groups": [{"name": "g1"}, {"name": "g2"}, {"name": "g3"}],
+               "nodes": [{"name": "a", "group": "g1", "stype": "A", "host": "h1"}, {"name": "b", "group": "g2", "stype": "A", "host": "h2"}, {"name": "c", "group": "g3", "stype": "A", "host": "h2", "active": False}],
+               "acqs": ["acq"], "files": [{"acq": "acq", "name": "f1", "size": 10}, {"acq": "acq", "name": "f2", "size": 10}],
+               "copies": [{"file": 0, "node": "a", "has": "Y", "wants": "N"}, {"file": 1, "node": "a", "has": "Y", "wants": "N"},
+                          {"file": 0, "node": "b", "has": "Y", "wants": "Y"}, {"file": 1, "node": "b", "has": "Y", "wants": "N"},
+                          {"file": 0, "node": "c", "has": "Y", "wants": "Y"}, {"file": 1, "node": "c", "has": "Y", "wants": "Y"}]}
+    run_hist(ctx, base, b2_spec, [("interleave", "h1", "h2")], {"scenario": "interleaved-batch"})
+    ctx.count("history-interleaved-batch")
     # copies merely marked removable go only from NON-archive nodes below their minimum free space
     rm_spec = {"groups": [{"name": f"g{i}"} for i in (1, 2, 3, 4)],
                "nodes": [{"name": "a1", "group": "g1", "stype": "A", "host": "h1", "active": True, "username": "u", "address": "addr", "min_avail_gb": 10 ** 7},
